@@ -241,8 +241,10 @@ OBLIGATIONS = [
         desc="real b2a/a2b: a2b(b2a(x)) == x, length == ceil(8n/5), alphabet, accepted by could_be_base32_encoded; x of n bytes whose first or last byte is arbitrary"),
     chx("b62_roundtrip", "C38_h", "h_b62_roundtrip", timeout=T,
         cases={"quick": [{"n": 1, "_label": "1byte"}, {"n": 2, "_label": "2bytes"}],
-               "thorough": [{"n": i, "_label": "%dbytes" % i} for i in (1, 2, 3)]},
-        desc="base62.b2a_l/a2b_l integer loops on symbolic byte values (byte-string plumbing replaced by identity): digits < 62, count as documented, decode(encode(x)) == x"),
+               "thorough": [{"n": i, "_label": "%dbytes" % i} for i in (1, 2)]},
+        desc="base62.b2a_l/a2b_l integer loops on symbolic byte values (byte-string plumbing replaced by identity): digits < 62, count as documented, decode(encode(x)) == x",
+        outside="3 or more symbolic bytes (measured: not confirmed in 900 s CPU; the chained %62 / //62 arithmetic on a 24-bit symbolic value is too hard for z3); "
+                "longer inputs are covered with one arbitrary byte by b62_real_bytes"),
     chx("b62_real_bytes", "C38_h", "h_b62_real_bytes", timeout=T,
         cases={"quick": [{"n": i, "_label": "%dbytes" % i} for i in (1, 4)],
                "thorough": [{"n": i, "_label": "%dbytes" % i} for i in (1, 2, 3, 4, 5, 8, 16, 32)]},
@@ -268,6 +270,11 @@ OBLIGATIONS = [
         desc="lease fields that do not fit 32 bits raise struct.error instead of being truncated"),
     chx("immutable_header", "C38_h", "h_immutable_header", timeout=T,
         desc="immutable_schema header: 12 bytes, (version, min(max_size, 2^32-1), 0 leases)"),
+    chx("mutable_magic", "C38_h", "h_mutable_magic", timeout=T,
+        desc="mutable_schema.schema_from_header/_Schema.magic_matches on every prefix (0..40 bytes) of a real v1/v2 container header, optionally with one flipped "
+             "bit inside the magic: recognised iff the full 32-byte magic is present and intact, never as the other version"),
+    chx("immutable_version", "C38_h", "h_immutable_version", timeout=T,
+        desc="immutable_schema.schema_from_version on an arbitrary (unbounded symbolic) version number: a schema iff version is 1 or 2"),
     pyob("struct_sizes", "struct_sizes", timeout=120,
          desc="z3: widths of the live format strings equal LEASE_SIZE / HEADER_SIZE / DATA_OFFSET / DATA_LENGTH_OFFSET / EXTRA_LEASE_OFFSET constants of "
               "ShareFile / MutableShareFile and struct.calcsize; initial mutable container size"),
